@@ -697,6 +697,10 @@ func (fc *FnCtx) checkInvariants(fr *Frame, h *ssa.BasicBlock, li int, st *State
 		for _, cl := range steps {
 			env := fc.invEnv(fr, st, phiVals, phis, cl.Text)
 			env.prev = fc.loopHead[h]
+			// inside prev(...) the loop variables denote their values at the head
+			if hp := fc.loopHeadPhis[h]; hp != nil {
+				env.prevVars = fc.invEnv(fr, fc.loopHead[h], hp, phis, cl.Text).vars
+			}
 			t := env.evalBool(cl.Expr)
 			fc.oblige(fr, "loop-step", fmt.Sprintf("loop %d: %s", li, clauseName(cl)), reach, t, env.quant, nil)
 		}
